@@ -104,33 +104,118 @@ pub async fn exec(a: &Args) -> Args {
     out
 }
 
+fn dec_vi(b: &[u8], pos: &mut usize) -> Option<u64> {
+    let first = *b.get(*pos)?;
+    let n = 1usize << (first >> 6);
+    if *pos + n > b.len() {
+        return None;
+    }
+    let mut v = (first & 0x3f) as u64;
+    for i in 1..n {
+        v = v << 8 | b[*pos + i] as u64;
+    }
+    *pos += n;
+    Some(v)
+}
+
+/// What the peer's bytes on the session stream mean, computed here from the specifications
+/// (independently of the library): Some(Ok((code, reason))) = session closed by the application,
+/// Some(Err(())) = protocol failure, None = no verdict (shape outside this reader, or still open).
+fn session_meaning(mode: u64, bytes: &[u8]) -> Option<Result<(u64, Vec<u8>), ()>> {
+    let mut pos = 0usize;
+    while pos < bytes.len() {
+        let start = pos;
+        let (t, l) = match (dec_vi(bytes, &mut pos), dec_vi(bytes, &mut pos)) {
+            (Some(t), Some(l)) => (t, l as usize),
+            _ => { pos = start; break; }
+        };
+        if pos + l > bytes.len() {
+            pos = start;
+            break;
+        }
+        let payload = &bytes[pos..pos + l];
+        pos += l;
+        let grease = t >= 0x21 && (t - 0x21) % 0x1f == 0;
+        if t == 0 {
+            // DATA: one capsule
+            let mut q = 0usize;
+            let (ct, cl) = match (dec_vi(payload, &mut q), dec_vi(payload, &mut q)) {
+                (Some(ct), Some(cl)) => (ct, cl as usize),
+                _ => return None,
+            };
+            if ct != 0x2843 {
+                if q + cl == payload.len() { continue; } else { return None; }
+            }
+            if q + cl != payload.len() {
+                return None;
+            }
+            let body = &payload[q..];
+            if body.len() < 4 || body.len() > 4 + 1024 {
+                return Some(Err(()));
+            }
+            let code = u32::from_be_bytes([body[0], body[1], body[2], body[3]]) as u64;
+            return match std::str::from_utf8(&body[4..]) {
+                Ok(_) => Some(Ok((code, body[4..].to_vec()))),
+                Err(_) => Some(Err(())),
+            };
+        } else if grease || t > 0x41 {
+            continue;
+        } else {
+            return None;
+        }
+    }
+    let leftover = pos < bytes.len();
+    match mode {
+        0 => if leftover { Some(Err(())) } else { Some(Ok((0, vec![]))) },
+        1 => Some(Err(())),
+        _ => None,
+    }
+}
+
 pub fn oracle(a: &Args, out: &Args) -> Option<(&'static str, String)> {
     if out[0][0] != 1 {
         return None;
     }
     let mode = a[0][0];
-    // C09: after the connection ended no call may hang or succeed
-    let closed_head = &out[15];
-    if closed_head[0] != TAG_PENDING {
-        for (i, name) in [(7, "accept_uni"), (9, "accept_bi"), (11, "receive_datagram"), (13, "open_uni")] {
+    const CALLS: [(usize, &str); 8] = [(1, "pending accept_uni"), (3, "pending accept_bi"), (5, "pending receive_datagram"),
+        (7, "accept_uni"), (9, "accept_bi"), (11, "receive_datagram"), (13, "open_uni"), (15, "closed()")];
+    // what the peer did, read independently of the library
+    let meaning = if mode == 2 { Some(Ok((a[0][1], a2b(&a[2])))) } else { session_meaning(mode, &a2b(&a[1])) };
+    // C09: once the session has ended no call may hang or succeed
+    let ended = meaning.is_some() || out[15][0] != TAG_PENDING;
+    if ended {
+        for (i, name) in CALLS {
             if out[i][0] == TAG_PENDING {
-                return Some(("C09", format!("{} still pending after the connection ended", name)));
+                return Some(("C09+C04", format!("{} still pending after the session ended", name)));
             }
-            if out[i][0] == TAG_OK {
-                return Some(("C09", format!("{} succeeded after the connection ended", name)));
+            if i >= 7 && i <= 13 && out[i][0] == TAG_OK {
+                return Some(("C09", format!("{} succeeded after the session ended", name)));
             }
         }
     }
-    // C04: a QUIC application close by the peer is reported with its exact code and reason
-    if mode == 2 && a[1].is_empty() {
-        for i in [1usize, 3, 5, 7, 9, 11] {
-            if out[i][0] == 9 {
-                continue;
-            }
-            if out[i] != vec![1, a[0][1]] || out[i + 1] != a[2] {
-                return Some(("C04", format!("peer QUIC close ({}, {:?}) reported as {:?} {:?}", a[0][1], a[2], out[i], out[i + 1])));
+    // C04 / C09: every call reports the cause: the peer's exact code and reason for an application
+    // close (capsule, clean FIN, QUIC close), never an application close for a protocol failure
+    match meaning {
+        Some(Ok((code, reason))) => {
+            for (i, name) in CALLS {
+                // open_uni and closed() do not wait on the peer: they may also name the local
+                // close the library performed in response (C09)
+                if out[i][0] == 9 || i == 13 || (i == 15 && out[i] == vec![3]) {
+                    continue;
+                }
+                if out[i] != vec![1, code] || a2b(&out[i + 1]) != reason {
+                    return Some(("C04+C09", format!("peer closed the session with ({}, {:?}) but {} reported {:?} {:?}", code, String::from_utf8_lossy(&reason), name, out[i], out[i + 1])));
+                }
             }
         }
+        Some(Err(())) => {
+            for (i, name) in CALLS {
+                if out[i][0] == 1 {
+                    return Some(("C04", format!("protocol failure on the session stream reported by {} as an application close {:?} {:?}", name, out[i], out[i + 1])));
+                }
+            }
+        }
+        None => {}
     }
     None
 }
@@ -179,11 +264,13 @@ pub fn generate(rng: &mut Rng, thorough: bool) -> Vec<Case> {
     cs.push(Case::new(601, vec![vec![3, 0, 7], b2a(&mk(&[0, 0, 1])), vec![]], "capsule-too-short"));
     cs.push(Case::new(601, vec![vec![3, 0, 7], b2a(&mk(&{ let mut b = vec![0u8, 0, 0, 1]; b.extend(vec![b'x'; 1025]); b })), vec![]], "capsule-reason-too-long"));
     cs.push(Case::new(601, vec![vec![3, 0, 7], b2a(&mk(&[0, 0, 0, 1, 0xff, 0xfe])), vec![]], "capsule-reason-not-utf8"));
+    cs.push(Case::new(601, vec![vec![3, 0, 7], b2a(&mk(&[0, 0, 0, 1, b'c', b'a', b'f', 0xc3])), vec![]], "capsule-reason-cut-character"));
+    cs.push(Case::new(601, vec![vec![3, 0, 7], b2a(&mk(&[0, 0, 0, 0, 0xe2, 0x82])), vec![]], "capsule-reason-cut-character"));
     // protocol violations on the session stream
     cs.push(Case::new(601, vec![vec![3, 0, 7], b2a(&raw_frame(4, &[])), vec![]], "settings-on-session-stream"));
     cs.push(Case::new(601, vec![vec![3, 0, 7], vec![0x40, 0x41, 0], vec![]], "wt-frame-on-session-stream"));
     // QUIC application close by the peer (C04): code boundaries, arbitrary reason bytes
-    let qcodes: Vec<u64> = vec![0, 1, 63, 64, 16383, 16384, (1 << 30) - 1, 1 << 30, (1 << 62) - 1];
+    let qcodes: Vec<u64> = vec![0, 1, 63, 64, 16383, 16384, (1 << 32) - 1, (1 << 30) - 1, 1 << 32, 1 << 30, (1 << 32) + 7, 77, (1 << 62) - 1];
     for (i, c) in qcodes.iter().enumerate() {
         if !thorough && i % 2 == 1 {
             continue;
